@@ -82,7 +82,7 @@ pub struct Imports<'a, P> {
 }
 impl<'a, P: Pe<'a>> Imports<'a, P> {
 	pub(crate) fn try_from(pe: P) -> Result<Imports<'a, P>> {
-		let datadir = pe.data_directory().get(IMAGE_DIRECTORY_ENTRY_IMPORT).ok_or(Error::Bounds)?;
+		let datadir = pe.data_directory().get(IMAGE_DIRECTORY_ENTRY_IMPORT).ok_or(Error::Null)?;
 		let image = pe.derva_slice_f(datadir.VirtualAddress, |image: &IMAGE_IMPORT_DESCRIPTOR| image.is_null())?;
 		Ok(Imports { pe, image })
 	}
@@ -127,7 +127,7 @@ pub struct IAT<'a, P> {
 }
 impl<'a, P: Pe<'a>> IAT<'a, P> {
 	pub(crate) fn try_from(pe: P) -> Result<IAT<'a, P>> {
-		let datadir = pe.data_directory().get(IMAGE_DIRECTORY_ENTRY_IAT).ok_or(Error::Bounds)?;
+		let datadir = pe.data_directory().get(IMAGE_DIRECTORY_ENTRY_IAT).ok_or(Error::Null)?;
 		// Ignore datadir.Size not being a multiple of sizeof(Va), not that big of a deal...
 		let image = pe.derva_slice(datadir.VirtualAddress, datadir.Size as usize / mem::size_of::<Va>())?;
 		Ok(IAT { pe, image })
